@@ -1,0 +1,13 @@
+//go:build verif
+
+// Contracts for package crypto, read by the govc verifier in /verif (comment-only).
+
+package crypto
+
+// Sha256Of: by definition, the SHA-256 digest of the bytes (crypto/sha256 is outside the verifier).
+//@ ghost func Sha256Of(data []byte) []byte
+
+//@ func SHA256(data []byte) []byte
+//@   trusted definition of Sha256Of (crypto/sha256)
+//@   modifies nothing
+//@   ensures[def] __seqeq(ret0, Sha256Of(data)) && len(ret0) == 32
